@@ -217,7 +217,7 @@ def pair_case(rng, tier, idx, n_neighbours=3):
     mech = MECHS[idx % len(MECHS)]
     attrs, shape, rows = gen_dataset(rng)
     cfg = gen_config(rng, mech, attrs, shape)
-    nb = neighbours(rng, shape, rows, cfg['bounded'], n_neighbours)
+    nb = neighbours(rng, shape, rows, cfg['bounded'], n_neighbours + (3 if mech == 'aim' else 0))   # AIM's annealing test sits on a threshold: more pairs
     return dict(mech=mech, cfg=cfg, attrs=attrs, shape=shape, rows=rows, neighbours=nb, inject=gen.pick(rng, INJECTS),
                 private_seed=int(rng.randint(2 ** 31)), post_seed=int(rng.randint(2 ** 31)),
                 cap=int(gen.pick(rng, [25, 40, 60])) if tier == 'quick' else int(gen.pick(rng, [40, 100, 300])))
